@@ -737,6 +737,12 @@ func (n *Network) CreateTransaction(ctx context.Context, template Template) (dag
 	if err != nil {
 		return nil, fmt.Errorf("unable to sign newly created transaction: %w", err)
 	}
+	// A transaction is sent to peers, with its payload, in a single protocol message (a TransactionList is only split
+	// between transactions). If it does not fit, it can never be replicated, nor can any transaction that follows it.
+	// 1024: overhead of the TransactionList message (see v2.transactionListMessageOverhead and v2.transactionListTXOverhead)
+	if len(transaction.Data())+len(template.Payload)+1024 > grpc.MaxMessageSizeInBytes {
+		return nil, fmt.Errorf("transaction is too large to be sent over the network (max message size=%d bytes, payload length=%d bytes)", grpc.MaxMessageSizeInBytes, len(template.Payload))
+	}
 	// Store in local State and publish it
 	if err = n.state.Add(ctx, transaction, template.Payload); err != nil {
 		return nil, fmt.Errorf("unable to add newly created transaction to State: %w", err)
